@@ -3,6 +3,7 @@ package harness
 import (
 	"fmt"
 	"math/rand"
+	"simrt"
 
 	"github.com/cinar/indicator/v2/strategy"
 )
@@ -109,8 +110,107 @@ func (c05) Run(c *Case, st *Stats) []Violation {
 			}
 		}
 	}
+	// compounds: action i is the documented combination of the members' recommendations for
+	// snapshot i (members evaluated on their own, on the same snapshots): a combinator that reads
+	// its members out of step keeps the count and shifts recommendations
+	if want, ok := combineMembers(c, st); ok {
+		m := min(len(want), len(acts))
+		for i := 0; i < m; i++ {
+			if acts[i] != want[i] {
+				add("compound-differs-from-members", fmt.Sprintf("action %d is %d, the members' recommendations for snapshot %d combine to %d", i, acts[i], i, want[i]))
+				break
+			}
+		}
+		st.Probes["compounds-compared-with-members"]++
+	}
 	st.Probes["action-streams-checked"]++
 	return vs
+}
+
+// combineMembers evaluates every member of an And/Or/Majority/Split/Inverse compound on its own
+// (fresh instance, canonical schedule) and combines the action lists by the combinator's rule.
+func combineMembers(c *Case, st *Stats) ([]strategy.Action, bool) {
+	switch c.Entity {
+	case "strategy.And", "strategy.Or", "strategy.Majority", "strategy.Split", "decorator.Inverse":
+	default:
+		return nil, false
+	}
+	var lists [][]strategy.Action
+	m := -1
+	for _, sub := range c.Subs {
+		d := &Case{Family: "strat", Lens: c.Lens, Shape: c.Shape, DataSeed: c.DataSeed}
+		setSpec(d, sub)
+		r := runStrat(d, PipeOpts{SimOpts: SimOpts{Policy: simrt.PolicySpec{Name: "fifo"}}})
+		st.noteSim(&r.SimOut)
+		if r.Err != nil || !r.Built || !allTrue(r.Closed) {
+			return nil, false
+		}
+		l := append([]strategy.Action(nil), r.Outs[0]...)
+		if c.Entity == "strategy.And" || c.Entity == "strategy.Or" || c.Entity == "strategy.Majority" {
+			// these three vote on positions, not on signals (strategy.ActionSources denormalises): a
+			// member counts as Buy from its Buy until its next Sell, and the other way round
+			last := strategy.Hold
+			for i, a := range l {
+				if a != strategy.Hold && a != last {
+					last = a
+				}
+				l[i] = last
+			}
+		}
+		lists = append(lists, l)
+		if m < 0 || len(r.Outs[0]) < m {
+			m = len(r.Outs[0])
+		}
+	}
+	if m < 0 {
+		return nil, false
+	}
+	out := make([]strategy.Action, m)
+	for i := 0; i < m; i++ {
+		buy, hold, sell := 0, 0, 0
+		for _, l := range lists {
+			switch l[i] {
+			case strategy.Buy:
+				buy++
+			case strategy.Sell:
+				sell++
+			default:
+				hold++
+			}
+		}
+		k := len(lists)
+		out[i] = strategy.Hold
+		switch c.Entity {
+		case "strategy.And": // all members agree
+			if sell == k {
+				out[i] = strategy.Sell
+			} else if buy == k {
+				out[i] = strategy.Buy
+			}
+		case "strategy.Or": // some member recommends it and none the opposite
+			if sell > 0 && buy == 0 {
+				out[i] = strategy.Sell
+			} else if buy > 0 && sell == 0 {
+				out[i] = strategy.Buy
+			}
+		case "strategy.Majority": // more votes than either alternative
+			if sell > buy && sell > hold {
+				out[i] = strategy.Sell
+			} else if buy > sell && buy > hold {
+				out[i] = strategy.Buy
+			}
+		case "strategy.Split": // buys from the first member, sells from the second
+			b, s := lists[0][i], lists[1][i]
+			if b == strategy.Buy && s != strategy.Sell {
+				out[i] = strategy.Buy
+			} else if s == strategy.Sell && b != strategy.Buy {
+				out[i] = strategy.Sell
+			}
+		case "decorator.Inverse":
+			out[i] = -lists[0][i]
+		}
+	}
+	return out, true
 }
 
 // holdWarmup returns the operational warm-up of the strategy a chain of decorators wraps.
